@@ -66,7 +66,9 @@ static int in_arena(uintptr_t a, uintptr_t b) {
   }
   return 0;
 }
+static uintptr_t g_live_td, g_live_td_end;     /* metadata of a thread that is alive while the snapshot is taken (workload threads-live) */
 static int is_retained_metadata(uintptr_t a, uintptr_t b) {
+  if (g_live_td != 0 && a >= (g_live_td & ~(uintptr_t)4095) && b <= ((g_live_td_end + 4095) & ~(uintptr_t)4095)) return 1;
   size_t na = mi_atomic_load_relaxed(&mi_arena_count);
   for (size_t i = 0; i < na; i++) {   /* arena descriptors that did not fit the static area */
     mi_arena_t* ar = mi_atomic_load_ptr_relaxed(mi_arena_t, &mi_arenas[i]);
@@ -146,9 +148,14 @@ static void* th_main(void* a) {
   for (int i = t->keep; i < t->nblocks; i++) { mi_free(t->out[i]); t->out[i] = NULL; }
   return NULL;
 }
-static const char* wl_names[] = { "small", "large", "huge", "aligned-huge", "threads8", "threads40", "heaps", "realloc", "mixed", "timed", "staggered", "arenas", "hugepages" };
-#define NWL 13
+static const char* wl_names[] = { "small", "large", "huge", "aligned-huge", "threads8", "threads40", "heaps", "realloc", "mixed", "timed", "staggered", "arenas", "hugepages", "threads-live" };
+#define NWL 14
 #define NWL_FOOT 11   /* (the arenas workload registers new arenas, which stay by design: fault mode only) */
+static pthread_t g_tl_thread; static volatile int g_tl_ready, g_tl_go, g_tl_running;
+static void* tl_short(void* a) { void* p = mi_malloc(100); void* q = mi_malloc(8 * KiB); pthread_barrier_wait((pthread_barrier_t*)a); mi_free(p); mi_free(q); return NULL; }
+static void* tl_long(void* a) { (void)a; mi_thread_init(); g_live_td = (uintptr_t)mi_heap_get_default(); g_live_td_end = g_live_td + sizeof(mi_thread_data_t);
+  __atomic_store_n(&g_tl_ready, 1, __ATOMIC_RELEASE); while (!__atomic_load_n(&g_tl_go, __ATOMIC_ACQUIRE)) usleep(200); return NULL; }
+static void tl_release(void) { if (g_tl_running) { __atomic_store_n(&g_tl_go, 1, __ATOMIC_RELEASE); pthread_join(g_tl_thread, NULL); g_tl_running = 0; g_live_td = 0; } }
 static int g_pinned_arena;     /* the workload reserved pinned (huge page) memory: it is never purged, by design */
 static int run_workload(int w) {
   switch (w) {
@@ -232,6 +239,19 @@ static int run_workload(int w) {
       if (w_alloc(48, 0, 0) || w_alloc(1 * MiB, 0, 1) || w_alloc(17 * MiB, 0, 0)) return -1;
       return w_free_all();
     }
+    case 13: { /* threads-live: three threads that are alive together end (their metadata goes to mimalloc's cache), then a thread starts
+                  (re-using one cached entry) and stays alive while the caller frees everything and force-collects: the other cached
+                  entries are mappings of their own and must be given back by that collect */
+      pthread_t th[3]; pthread_barrier_t bar; pthread_barrier_init(&bar, NULL, 3);
+      for (int i = 0; i < 3; i++) if (pthread_create(&th[i], NULL, &tl_short, &bar) != 0) { vf_sh->infra_error = 1; return -1; }
+      for (int i = 0; i < 3; i++) pthread_join(th[i], NULL);
+      pthread_barrier_destroy(&bar);
+      g_tl_ready = 0; g_tl_go = 0;
+      if (pthread_create(&g_tl_thread, NULL, &tl_long, NULL) != 0) { vf_sh->infra_error = 1; return -1; }
+      while (!__atomic_load_n(&g_tl_ready, __ATOMIC_ACQUIRE)) sched_yield();
+      g_tl_running = 1;
+      return 0;
+    }
     case 12: { /* hugepages: mi_reserve_huge_os_pages_at(3 x 1 GiB) -- the modelled OS grants such mappings for the duration of the call (ordinary untouched memory) --
                   then 40 blocks of 30 MiB (more than one of the three pages), only their first and last byte touched */
       g_pinned_arena = 1;
@@ -260,6 +280,8 @@ static int run_workload(int w) {
  * C11 footprint
  * ============================================================================================== */
 #define NREP 4
+static void footprint_case(long w);
+static void footprint_case_ix(long k) { footprint_case(k < NWL_FOOT ? k : 13); }   /* the footprint workloads: 0..10 and threads-live */
 static void footprint_case(long w) {
   snprintf(g_case_desc, sizeof(g_case_desc), "footprint workload=%s", wl_names[w]);
   snprintf(g_case_tag, sizeof(g_case_tag), "%s", wl_names[w]);
@@ -273,6 +295,7 @@ static void footprint_case(long w) {
     mi_collect(true);
     VF_INC(transitions);
     take_snapshot(&s[r]);
+    tl_release();                         /* (workload threads-live: its last thread was alive until here) */
     VF_INC(checks);
     /* oracle 1: nothing obtained directly from the OS survives */
     if (s[r].os_bytes > base.os_bytes) {
@@ -327,9 +350,9 @@ static long purge_calls_since(long mark) {
   for (long k = mark; k < vf_os.ncalls && k < VF_MAX_CALLS; k++) { const vf_call_t* c = &vf_os.calls[k]; if (c->kind == VF_C_MADVISE || (c->kind == VF_C_MPROTECT && c->arg == PROT_NONE)) n++; }
   return n;
 }
-enum { U_PAGE = 0, U_SEGMENT = 1, U_ALL = 2, U_MULTI = 3, U_CHURN = 4, U_ARENAS = 5, U_ABANDONED = 6, U_RETIRED = 7, NUNUSED = 8 };
+enum { U_PAGE = 0, U_SEGMENT = 1, U_ALL = 2, U_MULTI = 3, U_CHURN = 4, U_ARENAS = 5, U_ABANDONED = 6, U_RETIRED = 7, U_STRADDLE = 8, NUNUSED = 9 };
 enum { A_FREE_OTHER_PAGE = 0, A_ALLOC_PAGE = 1, A_HUGE_ALLOC_FREE = 2, A_COLLECT = 3, A_FASTPATH = 4, NACT = 5 };
-static const char* u_names[] = { "page-in-live-segment", "whole-segment", "everything", "several-pages-of-one-segment", "several-pages-one-of-them-reused-repeatedly", "four-huge-segments-possibly-in-four-arenas", "page-of-an-abandoned-segment-freed-by-another-thread", "last-page-of-a-size-class-(retired)" };
+static const char* u_names[] = { "page-in-live-segment", "whole-segment", "everything", "several-pages-of-one-segment", "several-pages-one-of-them-reused-repeatedly", "four-huge-segments-possibly-in-four-arenas", "page-of-an-abandoned-segment-freed-by-another-thread", "last-page-of-a-size-class-(retired)", "huge-segment-straddling-two-bitmap-fields-of-a-4GiB-arena" };
 static const char* a_names[] = { "free-other-page", "alloc-page-in-segment", "alloc+free-17MiB", "collect(false)", "small-fast-path-only" };
 #include <pthread.h>
 static uint8_t* g_ab_blk[2];
@@ -363,12 +386,26 @@ static void purge_case(long k) {
     if (_mi_ptr_page(rt[0]) != _mi_ptr_page(rt[3]) || _mi_ptr_segment(rt[0]) != _mi_ptr_segment(pa)) { vf_sh->infra_error = 1; fprintf(stderr, "set-up: retired-page geometry\n"); return; } }
   uint8_t* hus[4] = { NULL, NULL, NULL, NULL };
   if (U == U_ARENAS) for (int i = 0; i < 4; i++) { hus[i] = (uint8_t*)mi_malloc(40 * MiB); if (!hus[i]) { VIOL("null-result", "set-up"); return; } memset(hus[i], 7 + i, 40 * MiB); }
-  if (U == U_SEGMENT) { hu = (uint8_t*)mi_malloc(17 * MiB); if (!hu) { VIOL("null-result", "set-up"); return; } memset(hu, 4, 17 * MiB); }
+  size_t hu_size = 17 * MiB;
+  if (U == U_STRADDLE) {
+    /* needs an arena of more than 64 blocks (run with MIMALLOC_ARENA_RESERVE=4GiB): a 1950 MiB filler (address space only) takes arena
+       blocks 1..61, the 80 MiB block then lies in blocks 62..64, across the boundary of the arena's first two bitmap fields */
+    mi_arena_t* ar = mi_atomic_load_ptr_relaxed(mi_arena_t, &mi_arenas[0]);
+    if (ar == NULL || ar->block_count < 96) { VF_INC(nontrivial); return; }
+    void* filler = mi_malloc((size_t)1950 * MiB); hu_size = 80 * MiB;
+    hu = (uint8_t*)mi_malloc(hu_size);
+    if (!filler || !hu) { VIOL("null-result", "set-up"); return; }
+    size_t b0 = (size_t)((uintptr_t)hu - (uintptr_t)ar->start) / MI_ARENA_BLOCK_SIZE, b1 = (size_t)((uintptr_t)hu + hu_size - 1 - (uintptr_t)ar->start) / MI_ARENA_BLOCK_SIZE;
+    if ((uintptr_t)hu < (uintptr_t)ar->start || b0 / 64 == b1 / 64) { vf_sh->infra_error = 1; fprintf(stderr, "set-up: the 80 MiB block does not straddle two bitmap fields (arena blocks %zu..%zu)\n", b0, b1); return; }
+    for (size_t o = 0; o < hu_size; o += 4096) hu[o] = 4;
+    U = U_SEGMENT;
+  }
+  else if (U == U_SEGMENT) { hu = (uint8_t*)mi_malloc(17 * MiB); if (!hu) { VIOL("null-result", "set-up"); return; } memset(hu, 4, 17 * MiB); }
   g_mark = vf_os.ncalls;
   int64_t T0 = vf_os.clock_ms;
   /* the event: something becomes unused at T0 */
   if (U == U_PAGE)         { lo = (uintptr_t)pb; hi = lo + 1 * MiB; mi_free(pb); pb = NULL; }
-  else if (U == U_SEGMENT) { lo = (uintptr_t)hu; hi = lo + 17 * MiB; mi_free(hu); hu = NULL; }
+  else if (U == U_SEGMENT) { lo = (uintptr_t)hu; hi = lo + hu_size; mi_free(hu); hu = NULL; }
   else if (U == U_ABANDONED) { lo = (uintptr_t)g_ab_blk[1]; hi = lo + 1 * MiB; mi_free(g_ab_blk[1]); }   /* the page's owner is gone: its segment is abandoned, the other block of it stays live */
   else if (U == U_RETIRED) {
     /* the only page of its size class becomes empty: mimalloc keeps ("retires") it for a few cycles; every allocation of a fresh page
@@ -592,7 +629,7 @@ int main(int argc, char** argv) {
   /* dry runs are needed in-process for the fault mode (results land in copy-on-write memory: use shared memory) */
   long* shared_dry = (long*)mmap(NULL, sizeof(long) * NWL, PROT_READ | PROT_WRITE, MAP_SHARED | MAP_ANONYMOUS, -1, 0);
   g_dry_kinds = (uint8_t (*)[512])mmap(NULL, 512 * NWL, PROT_READ | PROT_WRITE, MAP_SHARED | MAP_ANONYMOUS, -1, 0);
-  if (strcmp(g_mode, "footprint") == 0) { ncases = NWL_FOOT; fn = footprint_case; }
+  if (strcmp(g_mode, "footprint") == 0) { ncases = NWL_FOOT + 1; fn = footprint_case_ix; }
   else if (strcmp(g_mode, "purge") == 0) { ncases = NUNUSED * NACT; fn = purge_case; }
   else if (strcmp(g_mode, "fault") == 0) {
     for (int wi = 0; wi < NWLF; wi++) {
